@@ -175,7 +175,7 @@ def _b(x):
 # ---------------------------------------------------------------------------
 class Stats:
     FIELDS = ("paths", "cut_paths", "forks", "queries", "solver_s", "proved", "refuted",
-              "known_hits", "asserts_reached", "max_depth", "choices", "exceptions")
+              "known_hits", "asserts_reached", "max_depth", "choices", "exceptions", "nontrivial")
 
     def __init__(self):
         for f in self.FIELDS:
@@ -460,6 +460,8 @@ class SymEngine:
                 tb = traceback.format_exc(limit=-6)
                 self.fail("exception %s: %s" % (type(e).__name__, e), detail=tb)
             self.stats.max_depth = max(self.stats.max_depth, len(self.trace))
+            if self.trace:
+                self.stats.nontrivial += 1       # the path took at least one solver / choice decision
             if self.pos < len(self.prefix):
                 raise Inconclusive("replay misaligned: prefix longer than path (%d < %d)"
                                    % (self.pos, len(self.prefix)))
